@@ -2140,3 +2140,60 @@ def r138(ctx: Ctx) -> RuleReport:
                 else:
                     rep.ok(key, fi.loc(c), st[1])
     return rep
+
+
+# ---------------------------------------------------------------------------------------------
+@rule('R146', '_preconfigure turns a queued triple round exactly when the Push it honours names the SOURCE of the triple (the graph decides, not a note on the marker)')
+def r146(ctx: Ctx) -> RuleReport:
+    from ..resolve import facts_ex, expand
+    rep = RuleReport('R146', r146.title, floor=1)
+    fi = ctx.repo.func(L, '_preconfigure')
+    loop = next((n for n in walk_local(fi.node) if isinstance(n, ast.For) and norm(n.iter).endswith('.triples')), None)
+    src_names = set()
+    for n in walk_local(fi.node):
+        if isinstance(n, ast.Assign) and isinstance(n.targets[0], ast.Tuple) and len(n.targets[0].elts) == 3 and loop is not None and norm(n.value) == norm(loop.target):
+            src_names.add(norm(n.targets[0].elts[0]))
+    if loop is not None and isinstance(loop.target, ast.Tuple) and len(loop.target.elts) == 3:
+        src_names.add(norm(loop.target.elts[0]))
+    if loop is not None and isinstance(loop.target, ast.Name):
+        src_names.add(f'{loop.target.id}[0]')
+    calls = [c for c in walk_local(fi.node) if isinstance(c, ast.Call) and isinstance(c.func, ast.Attribute) and c.func.attr == 'invert']
+    key = f'{fi.fq}: the triple is inverted exactly when <pushed variable> == <source of the triple>'
+    if not calls:
+        rep.undecided(key, fi.loc(), 'no model.invert(...) call')
+        return rep
+    for c in calls:
+        fx = facts_ex(ctx, fi, c)
+        good = bad = None
+        for f, pol in fx:
+            try:
+                e = ast.parse(f, mode='eval').body
+            except SyntaxError:
+                continue
+            if isinstance(e, ast.Compare) and len(e.ops) == 1 and isinstance(e.ops[0], (ast.Eq, ast.NotEq)):
+                a, b = norm(e.left), norm(e.comparators[0])
+                if (a in src_names and b.endswith('.variable')) or (b in src_names and a.endswith('.variable')):
+                    if (isinstance(e.ops[0], ast.Eq) and pol) or (isinstance(e.ops[0], ast.NotEq) and not pol):
+                        good = f
+                    else:
+                        bad = f
+        if good:
+            # ... and nothing else decides: every other fact at the call is one of the validity tests that precede it
+            extra = [f for f, pol in fx if pol and '.' in f and not f.startswith('isinstance(') and f != good and any(x in f for x in ('.inverted', '.mode', '.flag', '.kind'))]
+            if extra:
+                rep.undecided(key, fi.loc(c), f'also under {extra[:2]}')
+            else:
+                rep.ok(key, fi.loc(c), good)
+        elif bad:
+            rep.violation(key, fi.loc(c), f'the triple is inverted when `{bad}` does NOT hold: a Push on the target turns the triple round, a Push on the source does not')
+        else:
+            attr = [f for f, pol in fx if pol and '.' in f and not f.startswith('isinstance(') and '(' not in f and ' ' not in f.strip()]
+            derived = [f for f, pol in fx if pol and f.isidentifier()]
+            if not (attr or derived):
+                rep.undecided(key, fi.loc(c), f'guards: {sorted(f for f, pol in fx if pol)[:4]}')
+                continue
+            why = (attr or derived)[0]
+            rep.violation(key, fi.loc(c), f'whether the triple is turned round is decided by `{why}`, not by comparing the pushed variable with the source of the triple: what a marker '
+                          f'says about the spelling of a role is not what the model did with it - under the no-op model ":ARG1-of (b / beta)" is not deinverted when it is read, '
+                          f'but is turned round when it is written, so the node is closed at the wrong place and encode(decode(s)) moves it')
+    return rep
